@@ -66,6 +66,19 @@ def handle_bodies(model):
     return out
 
 
+def err_aggregates(b):
+    """(bb, stmt idx, rvalue) of every Result::Err aggregate whose value can reach the return place"""
+    ret_deps = b.deps(b.origin({"local": 0, "proj": []}))
+    out = []
+    for bid, blk in b.blocks.items():
+        for i, st in enumerate(blk["stmts"]):
+            rv = st["rv"]
+            if rv["k"] == "aggregate" and rv.get("variant") == "Err" and "Result" in rv.get("adt", ""):
+                if (st["dst"]["local"] == 0 and not st["dst"]["proj"]) or ("agg", bid, i, ()) in ret_deps:
+                    out.append((bid, i, rv))
+    return out
+
+
 def r1(ctx, facts, model, alive):
     hb = handle_bodies(model)
     ctx.floor("C02-R1", "allocator bodies taking handles and returning Result (kill paths)", len(hb), 2)
@@ -94,16 +107,13 @@ def r1(ctx, facts, model, alive):
                        "" if ok else "allocator state is changed for the index of a handle without a dominating is_alive test of that handle "
                        "(deleting through a dead handle must change nothing); path %s" % b.fmt_path(b.path_to(bb, {e["true_edge"] for e in edges})))
         # Err is returned only on the false edge
-        for d in b.defs().get(0, []):
-            if d[0] == "stmt" and d[4]["k"] == "aggregate" and d[4].get("variant") == "Err":
-                for x in xs or {None}:
-                    if x is None:
-                        continue
-                    edges = alive.guard_edges(b, x)
-                    removed = {e["false_edge"] for e in edges}
-                    ok = bool(edges) and d[1] not in b.reachable(0, removed=removed)
-                    ctx.ob("C02-R1", "%s Err only for a dead handle" % b.path, ok, b.loc(line=b.blocks[d[1]]["stmts"][d[2]].get("line")),
-                           "" if ok else "the wrong-generation error can be returned for a live handle")
+        for ebb, ei, erv in err_aggregates(b):
+            for x in xs:
+                edges = alive.guard_edges(b, x)
+                removed = {e["false_edge"] for e in edges}
+                ok = bool(edges) and ebb not in b.reachable(0, removed=removed)
+                ctx.ob("C02-R1", "%s Err only for a dead handle" % b.path, ok, b.loc(line=b.blocks[ebb]["stmts"][ei].get("line")),
+                       "" if ok else "the wrong-generation error can be produced for a live handle")
     ctx.floor("C02-R1", "guarded mutation sites on the kill paths", nsites, 4)
     # EntitiesRes::delete forwards to a handle body only
     dl = facts.body("world::entity::EntitiesRes::delete")
@@ -119,9 +129,10 @@ def r2(ctx, facts, model):
         if "usize" not in b.ltype[0]:
             continue
         n = 0
-        for d in b.defs().get(0, []):
-            if d[0] == "stmt" and d[4]["k"] == "aggregate" and d[4].get("variant") == "Err":
-                o = b.operand_origin(d[4]["ops"][0])
+        for ebb, ei, erv in err_aggregates(b):
+            if True:
+                d = ("stmt", ebb, ei)
+                o = b.operand_origin(erv["ops"][0])
                 # payload tuple (err, usize): find the usize component
                 pos = None
                 if o[0] == "agg":
